@@ -410,6 +410,25 @@ func (s *State) assumeNotFresh(t Term, ty types.Type) {
 		s.assume(Le(App("s-base", SInt, t), bound))
 	case *types.Interface:
 		s.assume(Le(App("i-val", SInt, t), bound))
+	case *types.Struct:
+		// pointer-like components of a symbolic struct value are not fresh either
+		s.assumeNotFreshStruct(t, ty, 0)
+	}
+}
+
+func (s *State) assumeNotFreshStruct(t Term, ty types.Type, depth int) {
+	st, ok := ty.Underlying().(*types.Struct)
+	if !ok || depth > 3 {
+		return
+	}
+	for i := 0; i < st.NumFields(); i++ {
+		ft := st.Field(i).Type()
+		switch ft.Underlying().(type) {
+		case *types.Pointer, *types.Map, *types.Chan, *types.Slice, *types.Interface:
+			s.assumeNotFresh(s.eng.tm.FieldOf(ty, t, i), ft)
+		case *types.Struct:
+			s.assumeNotFreshStruct(s.eng.tm.FieldOf(ty, t, i), ft, depth+1)
+		}
 	}
 }
 
